@@ -263,6 +263,23 @@ def run_e4(prog, rep, rule="E4", file_filter=None):
     return n
 
 
+def _static_is_mutable(crate, s):
+    ty = crate.types[s["ty"]].s
+    # interior mutability is decided by the compiler's own Freeze query (exact); the name list is a second line
+    return bool(s["mut"] or not s.get("freeze", False) or re.search(r"\b(Cell|RefCell|Mutex|RwLock|Atomic\w*|OnceCell|OnceLock|LazyLock|LocalKey|UnsafeCell)\b", ty))
+
+
+def _thread_local_accesses(fns):
+    out = []
+    for f in fns:
+        if f.body is None:
+            continue
+        for b, t in f.body.calls():
+            if is_callee(t, r"std::thread::LocalKey::<T>::(with|try_with|with_borrow|with_borrow_mut|set|get|take|replace)$", r"thread::local_impl|thread_local"):
+                out.append((f, t))
+    return out
+
+
 def run_e4g(prog, rep, rule="E4.g"):
     """no global mutable state: no `static mut`, no static with interior mutability, no thread_local!"""
     n = 0
@@ -270,22 +287,24 @@ def run_e4g(prog, rep, rule="E4.g"):
         for s in crate.statics:
             n += 1
             ty = crate.types[s["ty"]].s
-            bad = s["mut"] or re.search(r"\b(Cell|RefCell|Mutex|RwLock|Atomic\w+|OnceCell|OnceLock|LazyLock|LocalKey|UnsafeCell)\b", ty)
-            rep.check(not bad, rule, "static %s" % s["path"], sp_str(s["sp"]), "immutable static of type %s" % ty[:80],
+            rep.check(not _static_is_mutable(crate, s), rule, "static %s" % s["path"], sp_str(s["sp"]), "immutable static of type %s" % ty[:80],
                       "global mutable state: static %s : %s" % (s["path"], ty[:120]))
-        for o in crate.other_bodies:
-            pass
     # thread_local! expands to a const/static + a `LocalKey` accessor fn; look for LocalKey types and __getit/… fns
-    for f in prog.fns.values():
-        if f.body is None:
-            continue
-        for b, t in f.body.calls():
-            if is_callee(t, r"std::thread::LocalKey::<T>::(with|try_with|with_borrow|with_borrow_mut|set|get|take|replace)$", r"thread::local_impl|thread_local"):
-                rep.violation(rule, "%s :: thread-local access" % f.id, sp_str(t["sp"]), "thread-local state is read or written: results can depend on earlier executions on the same thread")
-                n += 1
+    for f, t in _thread_local_accesses(prog.fns.values()):
+        rep.violation(rule, "%s :: thread-local access" % f.id, sp_str(t["sp"]), "thread-local state is read or written: results can depend on earlier executions on the same thread")
+        n += 1
     for crate in (prog.lib, prog.bin):
         for ty in crate.types:
             if ty.k == "adt" and ty.path == "std::thread::LocalKey":
                 rep.violation(rule, "%s :: LocalKey type" % crate.name, "", "a thread_local! is declared in the crate (%s)" % ty.s[:100])
                 break
+    # positive controls (tsgfacts/control): the detector must report the planted globals and spare the immutable one
+    c = prog.control
+    if c is None:
+        rep.control(rule, False, "control crate analysed")
+    else:
+        verdict = {s["path"].rsplit("::", 1)[-1] if "MEMO" not in s["path"] else "MEMO": _static_is_mutable(c, s) for s in c.statics}
+        rep.control(rule, verdict.get("COUNTER") is True and verdict.get("SLOT") is True and verdict.get("TABLE") is True and verdict.get("MEMO") is True, "planted atomic / static mut / Mutex / thread_local statics are reported")
+        rep.control(rule, verdict.get("NAMES") is False, "planted immutable static is not reported")
+        rep.control(rule, len(_thread_local_accesses(c.fns.values())) >= 1, "planted thread-local access is reported")
     return n
